@@ -3,6 +3,7 @@ from __future__ import annotations
 
 import itertools
 import os
+import threading
 from random import Random
 
 from mc import progs as P
@@ -127,7 +128,8 @@ def _row(case):
 def _state(tr):
     d = {}
     for k, v in vars(tr).items():
-        if k in ('tape_cassette', '_random', '_thread_locals', '_classes_recording_params'):
+        if k in ('tape_cassette', '_random', '_thread_locals', '_classes_recording_params') or isinstance(v, threading.local) or hasattr(v, 'getrandbits') \
+                or hasattr(v, 'create_new_recording'):
             continue   # identity of collaborators; RNG abstracted to the draw counter; params registry is static configuration
         d[k] = P.canon(v) if not hasattr(v, 'id') else ('recording', getattr(v, 'id', None))
     return repr(sorted(d.items()))
@@ -266,10 +268,12 @@ def _s3(case):
             Scripted.n += 1
             return case['draw']
     missing = []
-    if hasattr(c, '_random'):
-        c._random = Scripted()
-    else:
-        missing = ['S3TapeCassette._random']
+    import random as _random_mod
+    rng_attrs = [k for k, v in vars(c).items() if isinstance(v, _random_mod.Random)]   # whatever the generator attribute is called
+    for k in rng_attrs:
+        setattr(c, k, Scripted())
+    if not rng_attrs:
+        missing = ['S3TapeCassette: no random.Random attribute to script']
     r = c.create_new_recording('Op')
     r.set_data('k', 1)
     r.add_metadata({'m': 1})
@@ -277,7 +281,7 @@ def _s3(case):
     stored = any('/full/' in k for k in st.objs)
     exp = case['ratio'] >= 1 or case['draw'] <= case['ratio']
     viols = []
-    if stored != exp:
+    if stored != exp and not (missing and 0 < case['ratio'] < 1):   # (an unscripted fractional decision is judged by the seeded-sequence case only)
         viols.append(viol('s3:calculator:%s' % ('dropped' if exp else 'kept'), 'storage-level sampling with ratio %s and draw %r' % (case['ratio'], case['draw']), exp, stored))
     if not missing and Scripted.n != (0 if case['ratio'] >= 1 else 1):
         viols.append(viol('s3:draws', 'draws consumed by the storage-level decision', 0 if case['ratio'] >= 1 else 1, Scripted.n))
